@@ -46,6 +46,8 @@ class Construction:
       except:
         break
       first_tag = i
+    # the tags were read from the right: restore the order of the line
+    self._data = dict(reversed(list(self._data.items())))
     self._delayed_initialize_positional_fields(strings, first_tag)
 
   def _delayed_initialize_positional_fields(self, strings, n_positional_fields):
